@@ -74,6 +74,8 @@ structure Skel where
   items : List Item                 -- generated types and action functions, file order
   calls : List Call                 -- calls of the shift / reduce arms, file order
   prodKinds : List String           -- variants of `enum ProdKind`
+  vecAlts : List (String × String)  -- Vec-kind rules: (element type, type of a single-element alternative)
+  vecLabels : List String           -- Vec-kind rules: assignment names of single-element alternatives
   deriving Repr, Inhabited
 
 /-! ## generation -/
@@ -183,6 +185,24 @@ def reduceCalls (g : AGrammar) (ts : List SymType) : List Call :=
       | none => []
     else [])
 
+/-- what the bodies of the Vec actions rely on: `vec![x]` needs `x` of the element type
+(`get_type_kind` lets a `Ref` alternative of ANOTHER type through: `ChoiceKind::Ref` overwrites `single`),
+and the `[a]` arm names its parameter `to_snake_case(a.name)` while the signature uses `a.name` -/
+def vecAltsOf (t : SymType) : List (String × String) :=
+  match t.kind with
+  | .vec r _ => t.choices.flatMap (fun c => match c.kind with
+      | .ref r' _ => [(r, r')]
+      | .struct _ [a] => [(r, a.refType)]
+      | _ => [])
+  | _ => []
+
+def vecLabelsOf (t : SymType) : List String :=
+  match t.kind with
+  | .vec _ _ => t.choices.flatMap (fun c => match c.kind with
+      | .struct _ [a] => [a.name]
+      | _ => [])
+  | _ => []
+
 def skeleton (g : AGrammar) (ts : List SymType) : Skel :=
   let rts := g.terms.filter (fun t => t.content && t.reach)
   let rnts := g.nts.filter (·.reach)
@@ -193,7 +213,9 @@ def skeleton (g : AGrammar) (ts : List SymType) : Skel :=
       ++ (if g.loc then ["ValSpan", "C"] else []),
     items := rts.flatMap (terminalItems g.loc) ++ ntItems,
     calls := rts.map (fun t => ⟨toSnake t.name, [.ctx, .token]⟩) ++ reduceCalls g ts,
-    prodKinds := prodKinds g }
+    prodKinds := prodKinds g,
+    vecAlts := rnts.flatMap (fun nt => match typeOf ts nt.name with | some t => vecAltsOf t | none => []),
+    vecLabels := rnts.flatMap (fun nt => match typeOf ts nt.name with | some t => vecLabelsOf t | none => []) }
 
 /-! ## the checker -/
 
@@ -324,8 +346,25 @@ def Skel.callOk (s : Skel) (c : Call) : Bool :=
 /-- argument types of every arm = parameter types of the action (F12 when violated) -/
 def Skel.armsTyped (s : Skel) : Bool := s.calls.all s.callOk
 
+/-- full expansion of type aliases -/
+def normTy (s : Skel) : Nat → Ty → Ty
+  | 0, t => t
+  | k + 1, .named n => match s.aliasOf n with | some t => normTy s k t | none => .named n
+  | k + 1, .opt t => .opt (normTy s k t)
+  | k + 1, .vec t => .vec (normTy s k t)
+  | k + 1, .box t => .box (normTy s k t)
+  | k + 1, .valspan t => .valspan (normTy s k t)
+
+/-- the two assumptions of the generated Vec action bodies (see `vecAltsOf`) -/
+def Skel.vecAltsOk (s : Skel) : Bool :=
+  s.vecAlts.all (fun p => normTy s (2 * s.items.length + 2) (.named p.1) == normTy s (2 * s.items.length + 2) (.named p.2))
+
+def Skel.vecLabelsOk (s : Skel) : Bool := s.vecLabels.all (fun l => toSnake l == l)
+
+def Skel.vecBodiesOk (s : Skel) : Bool := s.vecAltsOk && s.vecLabelsOk
+
 def Skel.wellFormed (s : Skel) : Bool :=
-  s.namesDistinct && s.refsDeclared && s.sized && s.armsTyped
+  s.namesDistinct && s.refsDeclared && s.sized && s.armsTyped && s.vecBodiesOk
 
 /-! ## class predicates of the known findings -/
 
@@ -334,16 +373,6 @@ def hasRightVec (ts : List SymType) : Bool :=
   ts.any (fun t => match t.kind with
     | .vec _ _ => t.choices.any (fun c => match c.kind with
         | .struct _ [_, b] => b.refType == t.name
-        | _ => false)
-    | _ => false)
-
-/-- the Vec-kind detection accepted a rule with a single-element alternative of another type
-(`ChoiceKind::Ref` overwrites `single`): the `vec![x]` action does not type-check -/
-def vecAltMismatch (ts : List SymType) : Bool :=
-  ts.any (fun t => match t.kind with
-    | .vec r _ => t.choices.any (fun c => match c.kind with
-        | .ref r' _ => r' != r
-        | .struct _ [a] => a.refType != r
         | _ => false)
     | _ => false)
 
